@@ -10,6 +10,10 @@ statements need to know one form only:
       statements on other names, e.g. a second accumulator)  ->  x = [e, ...]
       x = {}  followed by consecutive x['k'] = v        ->  x = {'k': v, ...}
   C5  `else:` after a branch that always leaves (raise/return/continue/break) is flattened
+  C6  a call of a private helper (module-level function, static/class method) whose body is one
+      returned expression - also spelled as an if-chain of returns - is replaced by that expression
+  C7  a nested `def f(a): return e` is `f = lambda a: e`
+  C8  negations in test position are pushed inwards (De Morgan)
 Line numbers of the originals are kept on the rewritten nodes."""
 import ast
 import copy
@@ -234,8 +238,228 @@ def _stmt(st):
     return st
 
 
+# ---------------------------------------------------------------------------------------------
+# C6-C9: helper functions, tests, constant loops
+# ---------------------------------------------------------------------------------------------
+def _strip_doc(body):
+    if body and isinstance(body[0], ast.Expr) and isinstance(body[0].value, ast.Constant) and isinstance(body[0].value.value, str):
+        return body[1:]
+    return body
+
+
+def _merge_returns(body):
+    """`if c: return a` [elif ...] `return b`  ->  `return a if c else b` (one expression), else None."""
+    body = _strip_doc(body)
+    if len(body) == 1 and isinstance(body[0], ast.Return) and body[0].value is not None:
+        return body[0].value
+    if len(body) >= 1 and isinstance(body[0], ast.If):
+        st = body[0]
+        a = _merge_returns(st.body)
+        if a is None:
+            return None
+        rest = st.orelse if st.orelse else body[1:]
+        if st.orelse and body[1:]:
+            return None
+        b = _merge_returns(rest)
+        if b is None:
+            return None
+        return ast.IfExp(test=st.test, body=a, orelse=b)
+    return None
+
+
+def _simple_params(f):
+    a = f.args
+    if a.vararg or a.kwarg or a.posonlyargs or a.kwonlyargs:
+        return None
+    return [x.arg for x in a.args]
+
+
+def _has(node, types):
+    return any(isinstance(n, types) for n in ast.walk(node))
+
+
+def _bind_args(f, call, drop_first=False):
+    """parameter name -> argument expression for a call of f, or None when it does not fit."""
+    params = _simple_params(f)
+    if params is None:
+        return None
+    if drop_first:
+        params = params[1:]
+    defaults = f.args.defaults
+    dmap = dict(zip(params[len(params) - len(defaults):], defaults)) if defaults else {}
+    if any(isinstance(a, ast.Starred) for a in call.args) or any(k.arg is None for k in call.keywords):
+        return None
+    if len(call.args) > len(params):
+        return None
+    env = dict(zip(params, call.args))
+    for k in call.keywords:
+        if k.arg not in params or k.arg in env:
+            return None
+        env[k.arg] = k.value
+    for p_ in params:
+        if p_ not in env:
+            if p_ in dmap:
+                env[p_] = dmap[p_]
+            else:
+                return None
+    return env
+
+
+class _Subst(ast.NodeTransformer):
+    def __init__(self, env):
+        self.env = env
+
+    def visit_Name(self, n):
+        if isinstance(n.ctx, ast.Load) and n.id in self.env:
+            return copy.deepcopy(self.env[n.id])
+        return n
+
+    def visit_Lambda(self, n):
+        shadow = {a.arg for a in n.args.args}
+        inner = _Subst({k: v for k, v in self.env.items() if k not in shadow})
+        n.body = inner.visit(n.body)
+        return n
+
+
+def _expr_helpers(tree):
+    """Private module-level functions, private static/class methods and nested functions whose body is one
+    returned expression (possibly spelled as an if-chain of returns): candidates for inlining at call sites."""
+    out = {}
+
+    def consider(key, f, drop_first=False):
+        if f.decorator_list and not all(isinstance(d, ast.Name) and d.id in ('staticmethod', 'classmethod') for d in f.decorator_list):
+            return
+        if _simple_params(f) is None or _has(f, (ast.Yield, ast.YieldFrom, ast.Await, ast.Global, ast.Nonlocal)):
+            return
+        e = _merge_returns(f.body)
+        if e is None:
+            return
+        if any(isinstance(n, ast.Name) and n.id == f.name for n in ast.walk(e)):
+            return            # recursive
+        out[key] = (f, e, drop_first)
+    for st in tree.body:
+        if isinstance(st, ast.FunctionDef) and st.name.startswith('_') and not st.name.startswith('__'):
+            consider(('mod', st.name), st)
+        if isinstance(st, ast.ClassDef):
+            for m in st.body:
+                if isinstance(m, ast.FunctionDef) and m.name.startswith('_') and not m.name.startswith('__'):
+                    decs = [d.id for d in m.decorator_list if isinstance(d, ast.Name)]
+                    if 'staticmethod' in decs:
+                        consider(('cls', st.name, m.name), m)
+                    elif 'classmethod' in decs:
+                        consider(('cls', st.name, m.name), m, drop_first=True)
+    return out
+
+
+class _InlineExprHelpers(ast.NodeTransformer):
+    """C6: a call of a private single-expression helper is replaced by that expression."""
+    def __init__(self, helpers, cls=None):
+        self.h = helpers
+        self.cls = cls
+        self.depth = 0
+
+    def visit_ClassDef(self, node):
+        old, self.cls = self.cls, node.name
+        self.generic_visit(node)
+        self.cls = old
+        return node
+
+    def visit_Call(self, node):
+        self.generic_visit(node)
+        key = None
+        f = node.func
+        if isinstance(f, ast.Name):
+            key = ('mod', f.id)
+        elif isinstance(f, ast.Attribute) and isinstance(f.value, ast.Name):
+            if f.value.id in ('self', 'cls') and self.cls:
+                key = ('cls', self.cls, f.attr)
+            else:
+                key = ('cls', f.value.id, f.attr)
+        if key in self.h and self.depth < 4:
+            fdef, expr, drop = self.h[key]
+            env = _bind_args(fdef, node, drop_first=False if not drop else True)
+            if env is not None:
+                new = _Subst(env).visit(copy.deepcopy(expr))
+                ast.copy_location(new, node)
+                for n in ast.walk(new):
+                    if not hasattr(n, 'lineno'):
+                        ast.copy_location(n, node)
+                self.depth += 1
+                new = self.visit(new)
+                self.depth -= 1
+                return new
+        return node
+
+
+def _nested_defs_to_lambdas(fn):
+    """C7: a nested `def f(args): return expr` (also as an if-chain of returns) is `f = lambda args: expr`."""
+    def rewrite(body):
+        out = []
+        for st in body:
+            if isinstance(st, ast.FunctionDef) and not st.decorator_list and _simple_params(st) is not None \
+                    and not _has(st, (ast.Yield, ast.YieldFrom, ast.Await, ast.Global, ast.Nonlocal)):
+                e = _merge_returns(st.body)
+                if e is not None:
+                    lam = ast.Lambda(args=st.args, body=e)
+                    new = ast.Assign(targets=[ast.Name(id=st.name, ctx=ast.Store())], value=lam)
+                    ast.copy_location(new, st)
+                    ast.copy_location(lam, st)
+                    ast.fix_missing_locations(new)
+                    out.append(new)
+                    continue
+            for fld in ('body', 'orelse', 'finalbody'):
+                if hasattr(st, fld) and isinstance(getattr(st, fld), list) and not isinstance(st, (ast.FunctionDef, ast.ClassDef)):
+                    setattr(st, fld, rewrite(getattr(st, fld)))
+            if isinstance(st, ast.Try):
+                for h in st.handlers:
+                    h.body = rewrite(h.body)
+            out.append(st)
+        return out
+    fn.body = rewrite(fn.body)
+
+
+def _nnf(test, neg=False):
+    """C8: negations of and/or in test position are pushed inwards (De Morgan); truthiness is all a test uses."""
+    if isinstance(test, ast.UnaryOp) and isinstance(test.op, ast.Not):
+        return _nnf(test.operand, not neg)
+    if isinstance(test, ast.BoolOp):
+        op = test.op
+        if neg:
+            op = ast.Or() if isinstance(op, ast.And) else ast.And()
+        new = ast.BoolOp(op=op, values=[_nnf(v, neg) for v in test.values])
+        return ast.copy_location(new, test)
+    if neg:
+        new = ast.UnaryOp(op=ast.Not(), operand=test)
+        return ast.copy_location(new, test)
+    return test
+
+
+class _Tests(ast.NodeTransformer):
+    def visit_If(self, node):
+        self.generic_visit(node)
+        node.test = _nnf(node.test)
+        return node
+
+    def visit_While(self, node):
+        self.generic_visit(node)
+        node.test = _nnf(node.test)
+        return node
+
+    def visit_IfExp(self, node):
+        self.generic_visit(node)
+        node.test = _nnf(node.test)
+        return node
+
+
 def canonicalize(tree):
     """In-place canonicalisation of a module (function and method bodies, nested ones included)."""
+    helpers = _expr_helpers(tree)
+    if helpers:
+        _InlineExprHelpers(helpers).visit(tree)
+    for node in ast.walk(tree):
+        if isinstance(node, (ast.FunctionDef, ast.AsyncFunctionDef)):
+            _nested_defs_to_lambdas(node)
+    _Tests().visit(tree)
     for node in ast.walk(tree):
         if isinstance(node, (ast.FunctionDef, ast.AsyncFunctionDef)):
             node.body = _block(node.body)
